@@ -148,6 +148,19 @@ PROPS["C11"] = {
     "technique": "deterministic simulation: generated histories + seeded interleaving of queries with flush tasks; naive point-ledger reference model",
 }
 
+PROPS["C12"] = {
+    "harness": "node", "level": "exploration", "per_proc": 40, "proc_timeout": 900,
+    "quick": {"runs": 1500, "budget_s": 300},
+    "thorough": {"runs": 60000, "budget_s": 1700, "shrink_runs": 150, "shrink_timeout": 600},
+    "rule": "Each run: one real engine holding the same generated points twice - database A with one shard, database K with 2-4 shards over which the series are spread; 4-9 operations out of write (to both), flush sequence (both), query. Every query (generator of C11: field, time range, interval, optional tag condition, group by none/host/id/id,host) is executed under 3-5 physical layouts: A on one leaf; K with all shards on one leaf; K with the shards partitioned over 2..k leaf nodes (leaves whose shards hold no matching data occur); and for group-by queries the partitioned layout and A through an intermediate node (real IntermediateTaskProcessor) between root and leaves. Each response travels in its own task with a tape-chosen transit time (0/0/1/3 ms), so arrival order and the interleaving of arrivals with leaves that are still working are seeded. Oracle: every answer must equal the reference model of C11, all answers must have the same outcome (error or not) and equal groups/slots/values (values of last/first fields only when one group is one series).",
+    "fault_kinds": ["flush"],
+    "real": NODE_REAL, "stub": NODE_STUB,
+    "assumptions": COMMON_ASSUME + ["series are spread over shards by a seeded assignment (a superset of what the routing hash of series/metric/row_broker.go can produce)", "leaf 'nodes' are several real leaf task processors over the one engine, each given its own shard ids, as flow/node_choose.go would assign them"],
+    "design_ref": "5/C12",
+    "level_text": "Seeded exploration of shard placements, leaf partitions, intermediate routing and response arrival orders for generated data and queries on a real engine and the real distributed query code; metamorphic equality plus the C11 reference model.",
+    "technique": "deterministic simulation: one data set under several physical layouts with tape-chosen response transit times and seeded scheduling; metamorphic equality + reference model",
+}
+
 PROPS["C03"] = {
     "harness": "mdata", "level": "exploration", "per_proc": 80, "proc_timeout": 900,
     "quick": {"runs": 3000, "budget_s": 300},
